@@ -168,6 +168,16 @@ CHECKS = {
              "contract and against chrono's own answer, and TLC re-derives every disagreement, boundary pair and sampled agreement.",
         note="libstdc++'s chrono is the reference for 'inside chrono'.  Agreement is demanded only where neither scaling overflows the common rep.",
         technique="TLC-emitted contracts/verdicts (C06 + C08 specs instantiated for durations) + trait TUs + operator sweep adjudicated by TLC", ref="6/C17"),
+    "C15": dict(
+        text="MathBig.tla states the required values with exact BigInt rationals and a pi enclosure: floor/ceil/round results against "
+             "value x ratio within the rounding error of the floating type the std function works in; inverse_in = trunc(K/x); angle "
+             "conversions feeding the trig wrappers.  TLC proves the inversion lemma trunc(K/trunc(K/n)) = n for K >= 10^6, n <= 1000 on 3.5M "
+             "states, and judges ~150k records of the real functions (13 rounding unit pairs incl. pi ratios x 4 reps; 7 inversion pairs x 4 "
+             "reps with the 1..1000 round trip exhaustively; degree/revolution/milliradian conversions).  Compile-time refusal of integral "
+             "inversions with K < 10^6 is probed for all 8 integral reps (with accepted twins); sin/cos/tan, hypot, fmod, remainder, abs, "
+             "copysign, min, max, clamp, isnan, arc* are bit-compared with the std function on the operands in the required unit.",
+        note="Tolerance 2^(5-p) + 2^-40.  The cmath wrappers are decided by raw-twin comparison (the specification contributes the argument conversion).",
+        technique="TLA+ lemma checked by TLC + trace validation of rounding/inversion/angle records by TLC (BigInt, pi enclosure) + probes + raw twins", ref="6/C15"),
 }
 
 
